@@ -5,16 +5,28 @@ Three ties:
        drop_level / flatten under the guard of _run_mapping) on generated (stored tree,
        reduced-tree records) vs Model/RunMapping.v (reduce 1702, backfill 1701,
        reduce+place+backfill 1703), plus the predicate spec_c17 (1704) on the real output;
+ (i')  the reduced tree as a tree: for every generated tree and every reduction (each droppable
+       level, flatten, drop+flatten) the REAL reduced TaxonomyTree is queried like the marker
+       reconciliation and the election query it - nodes_at_level, children and parents of every
+       node, as_leaves, leaves_to_compare of every parent - and compared with the queries of
+       Model/Tree.v on RunMapping.reduce (tag 1706) and with a TaxonomyTree built from the
+       reduced data alone; class c17-reduced-tree-query-differs;
  (ii)  election level: the real election.run_type_assignment with a table-driven oracle on
        the really reduced tree, marked directly_assigned, really backfilled, vs
        run_mapping_model with the table-driven decide (1705);
  (iii) pipeline level: paired REAL run_mapping runs with a common seed (drop_level=L vs a
        statistics file holding the model's drop_level t L; flatten vs a one-level taxonomy;
        an absent level), compared bitwise at the shared levels; run B's records pushed
-       through the model (1703) must give run A's complete output; spec_c17 on run A."""
+       through the model (1703) must give run A's complete output; spec_c17 on run A.
+       Besides the random scenarios: taxonomies of 4-5 levels with a dropped MIDDLE level whose
+       child level is a parent level, and marker tables in which parents below the dropped level
+       have fewer genes in the query than min_markers (2, 3, 5), so that the marker
+       reconciliation borrows from the ancestors of the reduced tree."""
 import copy
 import json
 from fractions import Fraction
+
+import numpy as np
 
 from harness import pipeline, paired, mapcheck, trees, routing
 
@@ -144,6 +156,57 @@ def real_backfill(tt_full, assignments):
         return 'err', E_KEY
 
 
+
+# ------------------------------------------------------------------ queries of the reduced tree
+def tree_queries(rt, gt):
+    """Everything the marker reconciliation (validate_marker_lookup: all_parents, children, parents) and
+    the election (children, as_leaves, leaves_to_compare) ask of a TaxonomyTree, in the wire form of
+    RunMapping.run_reduced_queries (tag 1706) minus the level map."""
+    h = rt.hierarchy
+    n = len(h)
+    table = []
+    for li, lv in enumerate(h):
+        row = []
+        for x in rt.nodes_at_level(lv):
+            try:
+                ch = rt.children(lv, x)
+                ch = [0, [int(r) for r in ch] if li == n - 1 else [gt.num(c) for c in ch]]
+            except RuntimeError:
+                ch = [1, 5]
+            try:
+                par = rt.parents(lv, x)
+                par = [0, [[h.index(k), gt.num(v)] for k, v in par.items()]]
+            except KeyError:
+                par = [1, E_KEY]
+            row.append([gt.num(x), ch, par])
+        table.append(row)
+    al = rt.as_leaves
+    leaves = [[[gt.num(x), [gt.num(lf) for lf in al[lv][x]]] for x in al[lv]] for lv in h]
+    pairs = [[[gt.num(g[1]), gt.num(g[2])] for g in rt.leaves_to_compare(p)] for p in rt.all_parents]
+    return [[gt.num(x) for x in rt.children(None, None)], table, leaves, pairs]
+
+
+def first_query_difference(obs, mod, h):
+    """human-readable first difference between two tree_queries() answers"""
+    names = ['children(None, None)', 'node table', 'as_leaves', 'leaves_to_compare']
+    if obs[0] != mod[0]:
+        return f'children(None, None): code {obs[0]}, expected {mod[0]}'
+    for li, (ro, rm) in enumerate(zip(obs[1], mod[1])):
+        if [e[0] for e in ro] != [e[0] for e in rm]:
+            return f'nodes_at_level({h[li]}): code {[e[0] for e in ro]}, expected {[e[0] for e in rm]}'
+        for eo, em in zip(ro, rm):
+            if eo[1] != em[1]:
+                return f'children({h[li]}, n{eo[0]:03d}): code {eo[1]}, expected {em[1]}'
+            if eo[2] != em[2]:
+                return (f'parents({h[li]}, n{eo[0]:03d}): code {eo[2]}, expected {em[2]} '
+                        '([0, [[level index in the reduced hierarchy, node] ...]] | [1, KeyError])')
+    if len(obs[1]) != len(mod[1]):
+        return f'number of levels: code {len(obs[1])}, expected {len(mod[1])}'
+    for k in (2, 3):
+        if obs[k] != mod[k]:
+            return f'{names[k]}: code {obs[k]}, expected {mod[k]}'
+    return None
+
 # ------------------------------------------------------------------ generators
 def dyadic(rng, lo, hi, den):
     return rng.randrange(lo, hi + 1) / den
@@ -210,7 +273,8 @@ def function_part(ctx):
     from cell_type_mapper.taxonomy.taxonomy_tree import TaxonomyTree
     rng = ctx.rng
     cases = []
-    for gt in gen_trees(ctx, rng):
+    tree_list = gen_trees(ctx, rng)
+    for gt in tree_list:
         n = len(gt.levels)
         tt = TaxonomyTree(data=gt.data)
         ms = modes_for(rng, n)
@@ -372,7 +436,62 @@ def function_part(ctx):
             desc['model'], desc['impl'] = p, oc
             ctx.violation('reduce+place+backfill of the model differs from the real backfill of the same records',
                           desc, no_input=True)
+    reduced_query_part(ctx, tree_list)
 
+
+# ------------------------------------------------------------------ (i') the reduced tree as a tree
+def reduced_query_part(ctx, tree_list):
+    """For every generated tree and EVERY reduction _run_mapping can make of it (each droppable level,
+    flatten, a drop followed by flatten): the really reduced TaxonomyTree must ANSWER like the taxonomy
+    that never had the level - nodes_at_level, children and parents of every node, as_leaves,
+    leaves_to_compare of every parent - compared with (1) the queries of Model/Tree.v on
+    RunMapping.reduce t cfg (tag 1706) and (2) a TaxonomyTree constructed from the reduced data alone."""
+    from cell_type_mapper.taxonomy.taxonomy_tree import TaxonomyTree
+    rng = ctx.rng
+    cases = []
+    for gt in tree_list:
+        n = len(gt.levels)
+        if n < 2:
+            continue
+        tt = TaxonomyTree(data=gt.data)
+        cfgs = [(li, False) for li in range(n - 1)] + [(None, True), (rng.randrange(0, n - 1), True)]
+        for drop, flat in cfgs:
+            st, rt = real_reduce(tt, None if drop is None else gt.levels[drop], flat)
+            if st != 'ok':
+                continue                     # rejected configurations are compared in function_part
+            cases.append({'gt': gt, 'drop': drop, 'flat': flat, 'rt_hier': list(rt.hierarchy),
+                          'voted': [gt.levels.index(x) for x in rt.hierarchy],
+                          'queries': tree_queries(rt, gt),
+                          'queries_fresh': tree_queries(TaxonomyTree(data=json.loads(rt.to_str())), gt)})
+    qres = ctx.model([(1706, [c['gt'].model, [] if c['drop'] is None else [c['drop']], c['flat']]) for c in cases])
+    for c, m in zip(cases, qres):
+        gt = c['gt']
+        n = len(gt.levels)
+        kind = ('flatten' if c['drop'] is None else 'drop+flatten') if c['flat'] else \
+            ('top' if c['drop'] == 0 else 'middle, child level is the leaf level' if c['drop'] == n - 2 else
+             'middle, child level is a parent level')
+        # non-trivial: the reduced tree still has a parent level whose parents() must skip the removed level
+        ctx.count(('fn-queries', gt.shape_key(), json.dumps(gt.model), c['drop'], c['flat']),
+                  nontrivial=(not c['flat']) and c['drop'] not in (None, 0))
+        ctx.dist('reduced_tree_queries', f'{n} levels, {kind}')
+        if m[0] != 0 or m[1][0] != c['voted']:
+            diff = f'the model\'s reduction differs: {m[:1]}'
+        else:
+            diff = first_query_difference(c['queries'], m[1][1:], c['rt_hier'])
+            if diff is not None:
+                diff = 'vs the model\'s reduced tree: ' + diff
+        if diff is None:
+            d2 = first_query_difference(c['queries'], c['queries_fresh'], c['rt_hier'])
+            if d2 is not None:
+                diff = 'vs a TaxonomyTree built from the reduced data alone: ' + d2
+        if diff is not None:
+            ctx.disagreements_checked += 1
+            desc = {'kind': 'reduced-tree-queries', 'class': 'c17-reduced-tree-query-differs', 'tree': gt.data,
+                    'drop': c['drop'], 'drop_name': None if c['drop'] is None else gt.levels[c['drop']],
+                    'flatten': c['flat'], 'reduced_hierarchy': c['rt_hier'],
+                    'impl_queries': c['queries'], 'model_queries': m}
+            ctx.violation('the reduced taxonomy the mapper uses (real drop_level / flatten) does not answer like the taxonomy '
+                          f'that never had that level: {diff}', desc)
 
 # ------------------------------------------------------------------ (ii) election level
 def election_part(ctx):
@@ -453,6 +572,108 @@ def out_cells(gt, res, cell_ids):
     return [canon_cell(gt.levels, by[cid], ordered=False) for cid in cell_ids]
 
 
+def sparse_parents(sc, li, min_markers):
+    """parents of level li+1 with >= 2 children whose marker list has fewer than min_markers genes in the query"""
+    gt = sc.tree
+    usable = set(sc.query_genes)
+    out = []
+    for node, kids in gt.model[li + 1]:
+        if len(kids) >= 2:
+            have = len(usable.intersection(sc.markers.get(f'{gt.levels[li + 1]}/{gt.name(node)}', [])))
+            if have < min_markers:
+                out.append(node)
+    return out
+
+
+def gen_sparse_scenario(rng):
+    """A taxonomy of 4-5 levels, a MIDDLE level li whose child level li+1 is itself a parent level, and a
+    marker table in which parents of level li+1 have fewer genes in the query than min_markers, so that
+    validate_marker_lookup must borrow from the ancestors of that parent IN THE REDUCED TREE (the node of
+    level li-1, never the removed node of level li); the ancestors carry marker lists of their own that
+    differ from the root's, and the query cells are noisy copies of leaves below the sparse parents.
+    Returns (scenario, li, min_markers)."""
+    n_levels = rng.choice([4, 4, 5])
+    li = rng.randrange(1, n_levels - 2)
+    caps = [12, 7, 5, 4, 3]                   # widest allowed level, counted from the leaf level upward
+    for _ in range(50):
+        lc = []
+        width = rng.choice([1, 2, 2])
+        for lev in range(n_levels - 1):
+            row = [rng.choice([2, 2, 3, 1]) if lev == li + 1 else rng.choice([1, 2, 2]) if lev in (li - 1, li)
+                   else rng.choice([1, 1, 2]) for _ in range(width)]
+            if lev == li + 1:
+                row[rng.randrange(len(row))] = rng.choice([2, 3])
+            while sum(row) > caps[n_levels - 2 - lev] and any(r > 1 for r in row):
+                big = [i for i, r in enumerate(row) if r > 1]
+                row[rng.choice(big)] -= 1
+            lc.append(row)
+            width = sum(row)
+        if any(r >= 2 for r in lc[li + 1]):
+            break
+    sc = pipeline.Scenario()
+    sc.tree = gt = trees.build(lc, rng, 0)
+    n_ref = rng.randrange(22, 34)
+    ref = list(range(n_ref))
+    rng.shuffle(ref)
+    sc.ref_genes = ref
+    q = [g for g in ref if rng.random() < 0.8]
+    missing = [g for g in ref if g not in q]
+    q += list(range(100, 100 + rng.randrange(0, 4)))
+    rng.shuffle(q)
+    sc.query_genes = q
+    usable = [g for g in ref if g in q]
+    leaves = [n for n, _ in gt.model[-1]]
+    sc.means = {lf: {g: rng.randrange(0, 97) / 8.0 for g in ref} for lf in leaves}
+    min_markers = rng.choice([2, 3, 5])
+    markers = {'None': rng.sample(usable, rng.randrange(3, 8))}
+    not_root = [g for g in usable if g not in markers['None']]
+    for lev, lvl in enumerate(gt.model[:-1]):
+        for node, kids in lvl:
+            key = f'{gt.levels[lev]}/{gt.name(node)}'
+            if lev == li + 1 and len(kids) >= 2 and rng.random() < 0.85:
+                # the sparse parent: 0 .. min_markers-1 genes of the query (+ genes the query lacks)
+                u = rng.randrange(0, min_markers)
+                lst = rng.sample(usable, u)
+                if u > 0 and missing:
+                    lst += rng.sample(missing, rng.randrange(0, min(2, len(missing)) + 1))
+                    rng.shuffle(lst)
+                if u == 0 and rng.random() < 0.5:
+                    continue                       # not listed at all
+                markers[key] = lst
+            elif lev <= li:
+                # ancestors (and the level that will be removed): lists of their own, mostly not the root's,
+                # long enough to satisfy min_markers; single-child parents get genes of the query only
+                pool = not_root if len(not_root) >= 6 and rng.random() < 0.8 else usable
+                k = rng.randrange(min(min_markers, len(pool)), min(len(pool), min_markers + 4) + 1)
+                if rng.random() < 0.15:
+                    k = rng.randrange(1, 3)        # an ancestor that is sparse itself: the borrowing goes further up
+                markers[key] = rng.sample(pool, k)
+            elif len(kids) >= 2:
+                lst = rng.sample(ref, rng.randrange(2, 8))
+                if not any(g in usable for g in lst):
+                    lst[0] = rng.choice(usable)
+                markers[key] = lst
+            elif rng.random() < 0.3:
+                markers[key] = rng.sample(usable, 2)
+    sc.markers = markers
+    # cells: noisy copies of leaves, mostly below the sparse parents
+    sparse = sparse_parents(sc, li, min_markers)
+    below = []
+    for node, kids in gt.model[li + 1]:
+        if node in sparse:
+            below += paired._leaves_under(gt.model, li + 1, node)
+    n_cells = rng.randrange(4, 9)
+    sc.cell_ids = [f'c{x:03d}' for x in rng.sample(range(200), n_cells)]
+    rows = []
+    for _ in range(n_cells):
+        lf = rng.choice(below) if below and rng.random() < 0.75 else rng.choice(leaves)
+        rows.append([max(0.0, sc.means[lf][g] + rng.randrange(-12, 13) / 8.0) if g in sc.means[lf]
+                     else rng.randrange(0, 97) / 8.0 for g in q])
+    sc.query = np.array(rows, dtype=np.float64)
+    sc.normalization = 'log2CPM'
+    return sc, li, min_markers
+
+
 def pipeline_part(ctx):
     rng = ctx.rng
     n = ctx.n(14, 200)
@@ -460,9 +681,6 @@ def pipeline_part(ctx):
         sc = pipeline.gen_scenario(rng, max_levels=5, max_leaves=8, n_cells=rng.randrange(2, 8))
         gt = sc.tree
         var = paired.base_var(rng, sc, factor=rng.choice([0.5, 0.75, 1.0]))
-        desc = {'kind': 'paired-run', 'tree': gt.data, 'markers': sc.markers, 'cell_ids': sc.cell_ids,
-                'query': sc.query.tolist(), 'query_genes': sc.query_genes, 'ref_genes': sc.ref_genes,
-                'means': {str(a): b for a, b in sc.means.items()}, 'config': var}
         modes = []
         for lv in gt.levels[:-1]:
             if len(gt.levels) > 1:
@@ -470,101 +688,156 @@ def pipeline_part(ctx):
         modes.append(('flatten', None))
         modes.append(('absent', 'no_such_level'))
         rng.shuffle(modes)
-        for mode, lv in modes[:ctx.n(3, 6)]:
-            ctx.count(('c17', k, mode, lv), nontrivial=len(gt.levels) >= 2)
-            ctx.dist('mode', mode)
-            ctx.dist('levels', len(gt.levels))
-            dd = dict(desc)
-            dd.update({'mode': mode, 'level': lv})
-            if mode == 'drop':
-                li = gt.levels.index(lv)
-                m = ctx.model([(1004, [gt.model, li])])[0]
-                va = dict(var); va['drop_level'] = lv
-                ra = paired.run_once(ctx, sc, f'a{k}_{li}', **va)
-                if m[0] != 0:
-                    if ra['ok']:
-                        dd['class'] = 'corr:Tree.drop_level'
-                        ctx.violation(f'model rejects dropping {lv} ({m}) but the run succeeded', dd, no_input=True)
-                    continue
-                rlevels = [x for x in gt.levels if x != lv]
-                rdata = model_to_data(rlevels, m[1], gt)
-                rb = paired.run_once(ctx, sc, f'b{k}_{li}', tree_data=rdata, **var)
-                shared = rlevels
-                mcfg = ([li], False)
-            elif mode == 'flatten':
-                va = dict(var); va['flatten'] = True
-                ra = paired.run_once(ctx, sc, f'a{k}_f', **va)
-                rdata = model_to_data([gt.levels[-1]], [gt.model[-1]], gt)
-                union = sorted(set(g for v in sc.markers.values() for g in v), key=lambda g: pipeline.gname(g))
-                rb = paired.run_once(ctx, sc, f'b{k}_f', tree_data=rdata, markers={'None': union}, **var)
-                shared = [gt.levels[-1]]
-                mcfg = ([], True)
-            else:
-                va = dict(var); va['drop_level'] = lv
-                ra = paired.run_once(ctx, sc, f'a{k}_x', **va)
-                rb = paired.run_once(ctx, sc, f'b{k}_x', **var)
-                shared = gt.levels
-                mcfg = ([len(gt.levels)], False)          # an index that is not a level
-            if not ra['ok'] or not rb['ok']:
-                dd['class'] = 'c17-run-raises'
-                dd['error'] = [ra['error'], rb['error']]
-                ctx.violation(f'{mode} {lv}: a run raised: {dd["error"]}', dd)
-                continue
-            a, b = paired.by_cell(ra), paired.by_cell(rb)
-            bad = None
-            for cid in sc.cell_ids:
-                diff = paired.compare_records(a[cid], b[cid], shared, bitwise=True)
-                if diff:
-                    bad = f'cell {cid}: {diff}'
-                    break
-                if mode == 'drop':
-                    li = gt.levels.index(lv)
-                    finer = trees.GenTree.num(a[cid][gt.levels[li + 1]]['assignment'])
-                    par = mapcheck.parent_of(gt.model, li + 1, finer)
-                    rec = a[cid].get(lv)
-                    if rec is None or trees.GenTree.num(rec['assignment']) != par or rec.get('directly_assigned') is not False:
-                        bad = f'cell {cid}: dropped level {lv} holds {rec}, expected the parent {par} of {finer}, inferred'
-                        break
-                if mode == 'flatten':
-                    # every coarser level is the leaf's ancestor
-                    cur = trees.GenTree.num(a[cid][gt.levels[-1]]['assignment'])
-                    for li in range(len(gt.levels) - 1, 0, -1):
-                        par = mapcheck.parent_of(gt.model, li, cur)
-                        rec = a[cid].get(gt.levels[li - 1])
-                        if rec is None or trees.GenTree.num(rec['assignment']) != par or rec.get('directly_assigned') is not False:
-                            bad = f'cell {cid}: level {gt.levels[li - 1]} holds {rec}, expected ancestor {par}'
-                            break
-                        cur = par
-                    if bad:
-                        break
-            if bad:
-                ctx.disagreements_checked += 1
-                dd['class'] = f'c17-{mode}'
-                ctx.violation(f'{mode} {lv}: {bad}', dd)
-                continue
-            # run A's complete output = the model's reduce/place/backfill of run B's records,
-            # and the property's predicate on run A
-            oa = out_cells(gt, ra, sc.cell_ids)
-            if any(x is None for x in oa):
-                dd['class'] = 'c17-record-keys'
-                ctx.violation(f'{mode} {lv}: a record of the output has an unexpected key set', dd)
-                continue
-            rows = [[rec_to_election_wire(b[cid][x]) for x in shared] for cid in sc.cell_ids]
-            voted = [gt.levels.index(x) for x in shared]
-            mm, sp = ctx.model([(1703, [gt.model, mcfg[0], mcfg[1], rows]),
-                                (1704, [gt.model, voted, len(sc.cell_ids), oa])])
-            if sp != [0, 1]:
-                ctx.disagreements_checked += 1
-                dd['class'] = 'c17-spec'
-                ctx.violation(f'{mode} {lv}: spec_c17 fails on the output of the real run', dd)
-            elif mm[0] != 0 or [sorted(c, key=lambda e: e[0]) for c in red_fracs(mm[1])] != oa:
-                ctx.disagreements_checked += 1
-                dd['class'] = 'corr:RunMapping.place_backfill'
-                dd['model'], dd['impl'] = mm, oa
-                ctx.violation(f'{mode} {lv}: the model\'s completion of run B\'s records is not run A\'s output',
-                              dd, no_input=True)
+        paired_modes(ctx, k, sc, var, modes[:ctx.n(3, 6)])
         if k < 2:
             ctx.sample({'tree': gt.data, 'markers': sc.markers, 'config': var, 'modes': [list(m) for m in modes[:3]]})
+    # 4-5 levels, a dropped MIDDLE level above a parent level, parents below it short of markers
+    for k in range(ctx.n(9, 150)):
+        sc, li, min_markers = gen_sparse_scenario(rng)
+        gt = sc.tree
+        var = paired.base_var(rng, sc, factor=rng.choice([0.5, 0.75, 1.0]))
+        var['min_markers'] = min_markers
+        modes = [('drop', gt.levels[li])]
+        if rng.random() < 0.35:
+            modes.append(rng.choice([('drop', gt.levels[li + 1]), ('drop', gt.levels[0]), ('flatten', None)]))
+        sparse = sparse_parents(sc, li, min_markers)
+        ctx.dist('sparse_scenarios', f'{len(gt.levels)} levels, drop level {li}, min_markers {min_markers}, '
+                                     f'{"some" if sparse else "no"} parent of level {li + 1} short of markers')
+        paired_modes(ctx, f's{k}', sc, var, modes, sparse=(li, sparse))
+        if k < 2:
+            ctx.sample({'tree': gt.data, 'markers': sc.markers, 'config': var, 'dropped_middle_level': gt.levels[li],
+                        'parents_short_of_markers': [gt.name(x) for x in sparse]}, limit=8)
+
+
+def borrowed_from_ancestor(ra, gt, li, sparse):
+    """did run A's marker reconciliation patch a sparse parent of level li+1 with the list of a proper
+    ancestor (not only the root's), and was a cell routed through such a parent?  (from the log and results)"""
+    log = ra['output'].get('log') or []
+    text = '\n'.join(str(x) for x in log) if isinstance(log, list) else str(log)
+    patched = []
+    for node in sparse:
+        key = f"'{gt.levels[li + 1]}/{gt.name(node)}' had too few markers"
+        for line in text.split('\n'):
+            if key in line and 'augmenting with markers from' in line:
+                src = line.split('augmenting with markers from', 1)[1]
+                if any(f"'{gt.levels[a]}/" in src for a in range(li)):
+                    patched.append(node)
+    routed = [x for x in patched
+              if any(r.get(gt.levels[li + 1], {}).get('assignment') == gt.name(x) for r in ra['output']['results'])]
+    return patched, routed
+
+
+def paired_modes(ctx, k, sc, var, modes, sparse=None):
+    rng = ctx.rng
+    gt = sc.tree
+    desc = {'kind': 'paired-run', 'tree': gt.data, 'markers': sc.markers, 'cell_ids': sc.cell_ids,
+            'query': sc.query.tolist(), 'query_genes': sc.query_genes, 'ref_genes': sc.ref_genes,
+            'means': {str(a): b for a, b in sc.means.items()}, 'config': var}
+    for mode, lv in modes:
+        ctx.count(('c17', k, mode, lv), nontrivial=len(gt.levels) >= 2)
+        ctx.dist('mode', mode)
+        ctx.dist('levels', len(gt.levels))
+        dd = dict(desc)
+        dd.update({'mode': mode, 'level': lv})
+        if mode == 'drop':
+            li = gt.levels.index(lv)
+            m = ctx.model([(1004, [gt.model, li])])[0]
+            va = dict(var); va['drop_level'] = lv
+            ra = paired.run_once(ctx, sc, f'a{k}_{li}', **va)
+            if m[0] != 0:
+                if ra['ok']:
+                    dd['class'] = 'corr:Tree.drop_level'
+                    ctx.violation(f'model rejects dropping {lv} ({m}) but the run succeeded', dd, no_input=True)
+                continue
+            rlevels = [x for x in gt.levels if x != lv]
+            rdata = model_to_data(rlevels, m[1], gt)
+            rb = paired.run_once(ctx, sc, f'b{k}_{li}', tree_data=rdata, **var)
+            shared = rlevels
+            mcfg = ([li], False)
+        elif mode == 'flatten':
+            va = dict(var); va['flatten'] = True
+            ra = paired.run_once(ctx, sc, f'a{k}_f', **va)
+            rdata = model_to_data([gt.levels[-1]], [gt.model[-1]], gt)
+            union = sorted(set(g for v in sc.markers.values() for g in v), key=lambda g: pipeline.gname(g))
+            rb = paired.run_once(ctx, sc, f'b{k}_f', tree_data=rdata, markers={'None': union}, **var)
+            shared = [gt.levels[-1]]
+            mcfg = ([], True)
+        else:
+            va = dict(var); va['drop_level'] = lv
+            ra = paired.run_once(ctx, sc, f'a{k}_x', **va)
+            rb = paired.run_once(ctx, sc, f'b{k}_x', **var)
+            shared = gt.levels
+            mcfg = ([len(gt.levels)], False)          # an index that is not a level
+        if not ra['ok'] or not rb['ok']:
+            dd['class'] = 'c17-run-raises'
+            dd['error'] = [ra['error'], rb['error']]
+            ctx.violation(f'{mode} {lv}: a run raised: {dd["error"]}', dd)
+            continue
+        a, b = paired.by_cell(ra), paired.by_cell(rb)
+        if sparse is not None and mode == 'drop' and gt.levels.index(lv) == sparse[0]:
+            patched, routed = borrowed_from_ancestor(ra, gt, sparse[0], sparse[1])
+            ctx.dist('sparse_parent_fallback', 'borrowed from a proper ancestor, a cell routed through it' if routed else
+                     'borrowed from a proper ancestor, no cell routed through it' if patched else
+                     'no borrowing from a proper ancestor')
+            ctx.count(('c17-sparse', k, lv), nontrivial=bool(routed))
+        bad = None
+        for cid in sc.cell_ids:
+            diff = paired.compare_records(a[cid], b[cid], shared, bitwise=True)
+            if diff:
+                bad = f'cell {cid}: {diff}'
+                # the marker lists the two runs ended up using (diagnostic only)
+                ma, mb = ra['output'].get('marker_genes') or {}, rb['output'].get('marker_genes') or {}
+                md = [f'{key}: {sorted(ma.get(key, []))} instead of {sorted(mb[key])}' for key in mb
+                      if sorted(ma.get(key, [])) != sorted(mb[key])]
+                if md:
+                    bad += ' (markers used differ at ' + '; '.join(md[:3]) + ')'
+                break
+            if mode == 'drop':
+                li = gt.levels.index(lv)
+                finer = trees.GenTree.num(a[cid][gt.levels[li + 1]]['assignment'])
+                par = mapcheck.parent_of(gt.model, li + 1, finer)
+                rec = a[cid].get(lv)
+                if rec is None or trees.GenTree.num(rec['assignment']) != par or rec.get('directly_assigned') is not False:
+                    bad = f'cell {cid}: dropped level {lv} holds {rec}, expected the parent {par} of {finer}, inferred'
+                    break
+            if mode == 'flatten':
+                # every coarser level is the leaf's ancestor
+                cur = trees.GenTree.num(a[cid][gt.levels[-1]]['assignment'])
+                for li in range(len(gt.levels) - 1, 0, -1):
+                    par = mapcheck.parent_of(gt.model, li, cur)
+                    rec = a[cid].get(gt.levels[li - 1])
+                    if rec is None or trees.GenTree.num(rec['assignment']) != par or rec.get('directly_assigned') is not False:
+                        bad = f'cell {cid}: level {gt.levels[li - 1]} holds {rec}, expected ancestor {par}'
+                        break
+                    cur = par
+                if bad:
+                    break
+        if bad:
+            ctx.disagreements_checked += 1
+            dd['class'] = f'c17-{mode}'
+            ctx.violation(f'{mode} {lv}: {bad}', dd)
+            continue
+        # run A's complete output = the model's reduce/place/backfill of run B's records,
+        # and the property's predicate on run A
+        oa = out_cells(gt, ra, sc.cell_ids)
+        if any(x is None for x in oa):
+            dd['class'] = 'c17-record-keys'
+            ctx.violation(f'{mode} {lv}: a record of the output has an unexpected key set', dd)
+            continue
+        rows = [[rec_to_election_wire(b[cid][x]) for x in shared] for cid in sc.cell_ids]
+        voted = [gt.levels.index(x) for x in shared]
+        mm, sp = ctx.model([(1703, [gt.model, mcfg[0], mcfg[1], rows]),
+                            (1704, [gt.model, voted, len(sc.cell_ids), oa])])
+        if sp != [0, 1]:
+            ctx.disagreements_checked += 1
+            dd['class'] = 'c17-spec'
+            ctx.violation(f'{mode} {lv}: spec_c17 fails on the output of the real run', dd)
+        elif mm[0] != 0 or [sorted(c, key=lambda e: e[0]) for c in red_fracs(mm[1])] != oa:
+            ctx.disagreements_checked += 1
+            dd['class'] = 'corr:RunMapping.place_backfill'
+            dd['model'], dd['impl'] = mm, oa
+            ctx.violation(f'{mode} {lv}: the model\'s completion of run B\'s records is not run A\'s output',
+                          dd, no_input=True)
 
 
 def run(ctx):
@@ -573,13 +846,20 @@ def run(ctx):
                 'every droppable level, flatten, drop+flatten, leaf level, absent level} x random paths with dyadic numbers, '
                 'vs reduce/backfill/place of Model/RunMapping.v and spec_c17 on the real output; also arbitrary '
                 'presence patterns and foreign node names (KeyError); non-trivial = >=2 levels and >=1 level inferred, '
-                'distinct by (shape, configuration, records). (ii) real election with a table-driven oracle on the really '
+                'distinct by (shape, configuration, records). (i\') every reduction (each droppable level, flatten, '
+                'drop+flatten) of every one of those trees: nodes_at_level / children / parents of EVERY node, as_leaves and '
+                'leaves_to_compare of every parent of the real reduced TaxonomyTree vs Tree.v queries on RunMapping.reduce (tag '
+                '1706) and vs a TaxonomyTree built from the reduced data alone; non-trivial = a level other than the top one '
+                'was dropped (parents() must skip it). (ii) real election with a table-driven oracle on the really '
                 'reduced tree + real backfill vs run_mapping_model; non-trivial = some parent with >=2 children. '
                 '(iii) paired real run_mapping runs with a common seed: drop_level=L vs a statistics file whose taxonomy is '
                 "the model's drop_level t L (tag 1004); flatten vs a one-level taxonomy with the sorted union of all marker "
                 'lists; a level absent from the taxonomy vs no drop; compared bitwise at the shared levels, dropped level = '
                 'parent of the finer assignment, flagged inferred; run B pushed through the model must give run A; '
-                'non-trivial = a pair on a tree with >= 2 levels')
+                'non-trivial = a pair on a tree with >= 2 levels; plus scenarios with 4-5 levels, a dropped middle level whose '
+                'child level is a parent level, parents of that child level with fewer query genes than min_markers in {2,3,5} '
+                'and ancestors with marker lists of their own (non-trivial = the log shows the borrowing from a proper '
+                'ancestor and a cell is routed through that parent)')
     ctx.assumptions += [
         'level names are positions in the stored hierarchy; a drop_level name that is not in the hierarchy is an index >= the number of levels',
         'the marker cache and the bootstrapped vote are abstract in the theorems (any decision procedure that depends only on '
